@@ -10,6 +10,7 @@ import (
 	"net"
 	"net/http"
 	"net/http/httptest"
+	"os"
 	"regexp"
 	"strconv"
 	"strings"
@@ -79,6 +80,12 @@ func (s *HTTPStore) ClearFaults() {
 func (s *HTTPStore) Put(path string, b []byte) {
 	s.mu.Lock()
 	s.Objects[path] = b
+	s.mu.Unlock()
+}
+
+func (s *HTTPStore) Delete(path string) {
+	s.mu.Lock()
+	delete(s.Objects, path)
 	s.mu.Unlock()
 }
 
@@ -275,6 +282,7 @@ type GFault struct {
 	AfterOut int        // for server streams: fail after this many response bytes were sent (-1: before the handler runs)
 	CleanEnd bool       // end the stream cleanly (OK) after AfterOut bytes instead of failing
 	Forever  bool
+	Mutate   func(resp any) // unary calls: let the handler run, then alter its response (Code is ignored)
 }
 
 // GRPCTap records resource names and injects faults into a real gRPC server
@@ -367,6 +375,13 @@ func (t *GRPCTap) Unary(ctx context.Context, req any, info *grpc.UnaryServerInfo
 		}
 	}
 	if f := t.take(info.FullMethod); f != nil {
+		if f.Mutate != nil {
+			resp, err := h(ctx, req)
+			if err == nil {
+				f.Mutate(resp)
+			}
+			return resp, err
+		}
 		return nil, status.Error(f.Code, "injected fault")
 	}
 	return h(ctx, req)
@@ -423,6 +438,11 @@ func (t *GRPCTap) Stream(srv any, ss grpc.ServerStream, info *grpc.StreamServerI
 	t.mu.Lock()
 	t.Active++
 	t.mu.Unlock()
+	if os.Getenv("VERIF_DEBUG_TAP") != "" {
+		t0 := time.Now()
+		fmt.Fprintf(os.Stderr, "TAP %s start %s\n", t0.Format("15:04:05.000"), info.FullMethod)
+		defer func() { fmt.Fprintf(os.Stderr, "TAP %s end   %s (started %s)\n", time.Now().Format("15:04:05.000"), info.FullMethod, t0.Format("15:04:05.000")) }()
+	}
 	defer func() { t.mu.Lock(); t.Active--; t.mu.Unlock() }()
 	f := t.take(info.FullMethod)
 	if f != nil && f.AfterOut < 0 {
